@@ -294,6 +294,7 @@ def iocb_history(run, rng, nclients, nservers, nreq):
                                                                      "service": 18, "payload": b"\x09\x01\x1a"})})
                         CLOCK.drive(duration=rng.choice([0.0, 0.2]), max_steps=200000)
                         injected.append((round(CLOCK.now - CLOCK.START, 2), reqs[t]["iocb"].args[0].apduInvokeID, reqs[t]["server"], ci))
+                        reqs[t]["ended_by_injected_ack"] = True
                         lan.inject(servers[reqs[t]["server"]].address, clients[reqs[t]["client"]].address, bad)
                         CLOCK.settle()
                         run.count("late_undecodable_acknowledgements_injected")
@@ -348,6 +349,12 @@ def iocb_history(run, rng, nclients, nservers, nreq):
         if tok in responded and e["outcome"] != "complex-ack":
             run.violation("iocb-ended-without-the-answer-the-peer-sent/" + str(e["outcome"]), w)
             return
+        if e.get("answer_token") is not None and e["answer_token"] != tok and reqs.get(e["answer_token"], {}).get("ended_by_injected_ack"):
+            # the harness's own unreadable acknowledgement ended that transaction before the peer had answered; the invoke id was
+            # free again and the genuine answer, when it came, met whoever had it by then: same peer, same id - nothing a
+            # receiver can tell apart (the assumption about forged replies with a live id, arrived at from the other side)
+            run.count("genuine_answers_arriving_after_the_injected_one_had_freed_the_id")
+            continue
         if e.get("answer_token") is not None and e["answer_token"] != tok:
             given_up = reqs.get(e["answer_token"], {}).get("abandoned") == "in-flight"
             run.violation("late-answer-to-a-request-given-up-in-flight-completes-the-next-request-to-that-peer" if given_up
